@@ -11,8 +11,9 @@
    largest timer delay a body asks for).  Statements only; proofs are [exact]. *)
 Require Import Base Sched Switch SwitchFacts.
 
-(* 1. The output stream of the switch — and its error, its cycle times, and the
-      live instance — is that of the specification: at every moment the one
+(* 1. The output stream of the switch (the recorder lines: value, and for a TSS
+      output value and delta, of every tick) — and the output container, its error,
+      its cycle times, and the live instance — is that of the specification: at every moment the one
       selected branch, running alone from the fresh instance created when it was
       selected.  For every fuel (length of the run). *)
 Theorem switch_follows_active : forall sp h D start end_ fuel,
@@ -20,7 +21,7 @@ Theorem switch_follows_active : forall sp h D start end_ fuel,
   let m := mirror_run sp h start end_ fuel in
   let s := spec_run sp h start end_ fuel in
   outs_of (m_log m) = s_outs s /\ cycles_of (m_log m) = s_cycles s /\ m_err m = s_err s /\
-  active_inst m = s_cur s.
+  active_inst m = s_cur s /\ m_out m = s_out s.
 Proof. exact SwitchFacts.follows_active_gen. Qed.
 Print Assumptions switch_follows_active.
 
@@ -46,10 +47,37 @@ Theorem new_branch_fresh_and_sampled : forall sp h D start end_,
   tick_of sp h 0 t = Some k -> need_switch sp (w_akey (m_w m)) k = true -> select_branch sp k = Some br ->
   let srcs' := apply_ticks t (m_srcs m) (ticks_at sp h t) in
   let m' := mirror_cycle sp h t m in
+  let run := alone_cycle sp t srcs' (fst (inst_start t (fresh_inst br (m_ninst m) t))) in
+  let emptied := match active_inst m with Some _ => reset_out (s_set sp) t (m_out m) | None => m_out m end in
   m_err m' = 0 /\ m_ninst m' = m_ninst m + 1 /\
-  active_inst m' = Some (k, fst (alone_cycle sp t srcs' (fst (inst_start t (fresh_inst br (m_ninst m) t))))).
+  active_inst m' = Some (k, fst run) /\
+  m_out m' = match snd run with Some v => emit_out (s_set sp) t v emptied | None => emptied end.
 Proof. exact SwitchFacts.new_branch_reach. Qed.
 Print Assumptions new_branch_fresh_and_sampled.
+
+(* 2b. Collection-shaped (TSS) output owned by the switch: after ANY selection —
+      another branch, the same branch re-selected, reload_on_ticked on a key
+      re-tick, another unmatched key falling to the same default branch — the
+      set holds exactly what the NEW instance published at the switch time;
+      nothing the replaced instance published survives.  The output ticks at the
+      switch time whenever an instance was replaced, and the delta of that tick
+      is taken against the members the replaced instance had published. *)
+Theorem reselected_container_is_fresh : forall sp h D start end_,
+  (s_nts sp <= 2)%nat -> sp_bounded D sp -> 1 <= start -> end_ <= MAX_DT -> end_ + D <= MAX_DT ->
+  forall n k br,
+  let m := reach sp h start end_ n in
+  cycle_due sp h end_ m ->
+  let t := mirror_next sp h m in
+  tick_of sp h 0 t = Some k -> need_switch sp (w_akey (m_w m)) k = true -> select_branch sp k = Some br ->
+  s_set sp = true ->
+  let srcs' := apply_ticks t (m_srcs m) (ticks_at sp h t) in
+  let m' := mirror_cycle sp h t m in
+  let run := alone_cycle sp t srcs' (fst (inst_start t (fresh_inst br (m_ninst m) t))) in
+  o_set (m_out m') = opt_list (snd run) /\
+  o_lmt (m_out m') = (if is_some (active_inst m) || is_some (snd run) then t else o_lmt (m_out m)) /\
+  (is_some (active_inst m) = true -> o_old (m_out m') = o_set (m_out m)).
+Proof. exact SwitchFacts.fresh_container_reach. Qed.
+Print Assumptions reselected_container_is_fresh.
 
 (* ... and what that fresh instance is and sees at the switch time: state 0, only
    its start-hook timer pending, every held input presented as modified with its
@@ -152,13 +180,13 @@ Print Assumptions harness_cases_are_covered.
 (* ------------------------------------------------------------------ *)
 (* key 1 -> a running sum, key 2 -> a timer body (arms now+3 on every tick, emits
    when it fires), default -> a self-scheduling ticker taking the key. *)
-Definition ex_acc    : bparams := mkBP false true false false false 1 0 1 0 1 0 0.
-Definition ex_timer  : bparams := mkBP false false true true false 3 100 1 0 1 0 0.
-Definition ex_ticker : bparams := mkBP true true true false true 2 200 1 1 0 0 1.
+Definition ex_acc    : bparams := mkBP false true false false false 1 0 1 0 1 0 0 false.
+Definition ex_timer  : bparams := mkBP false false true true false 3 100 1 0 1 0 0 false.
+Definition ex_ticker : bparams := mkBP true true true false true 2 200 1 1 0 0 1 false.
 Definition ex_sp : swspec :=
   mkSw 1 false [(1, mkBr false (table_body ex_acc)); (2, mkBr false (table_body ex_timer))]
-       (Some (mkBr true (table_body ex_ticker))).
-Definition ex_sp_nodefault : swspec := mkSw 1 false (s_cases ex_sp) None.
+       (Some (mkBr true (table_body ex_ticker))) false.
+Definition ex_sp_nodefault : swspec := mkSw 1 false (s_cases ex_sp) None false.
 (* a ticks at 1,3,5,7; key: 1 at 2, 2 at 4 (timer armed for 7), 1 at 6 (third
    activation: slot 0 is reused, the timer of the stopped instance is pending),
    9 at 8 (default / unmatched) *)
@@ -189,10 +217,29 @@ Qed.
    is replaced at 6 (its timers at 7 and 8 never fire), then the FRESH running sum
    7, 15 (not 18, 26), then the default branch; mirror and specification agree *)
 Example ex_run :
-  rev (outs_of (m_log (mirror_run ex_sp ex_h 1 20 30))) = [(2, 5); (3, 11); (6, 7); (7, 15); (8, 218); (9, 211); (10, 212); (12, 213); (14, 214); (16, 215); (18, 216)] /\
-  rev (s_outs (spec_run ex_sp ex_h 1 20 30)) = rev (outs_of (m_log (mirror_run ex_sp ex_h 1 20 30))) /\
+  map (fun l => (nthz 1 l, nthz 4 l)) (rev (outs_of (m_log (mirror_run ex_sp ex_h 1 20 30)))) =
+    [(2, 5); (3, 11); (6, 7); (7, 15); (8, 218); (9, 211); (10, 212); (12, 213); (14, 214); (16, 215); (18, 216)] /\
+  s_outs (spec_run ex_sp ex_h 1 20 30) = outs_of (m_log (mirror_run ex_sp ex_h 1 20 30)) /\
   m_err (mirror_run ex_sp ex_h 1 20 30) = 0.
 Proof. vm_compute. repeat split; reflexivity. Qed.
+
+(* TSS output, reload_on_ticked, ONE branch that publishes its input: the key re-ticks at 4
+   while the set is {1,2,3} and the held input is 3.  The same branch graph is rebuilt; the
+   hypotheses of theorem 2b hold there, the output at 4 is {3} with removed {1,2} (3 is
+   re-published, so it is in neither added nor removed), and 4 joins at 5. *)
+Definition ex_pub : bparams := mkBP false true false false false 1 0 0 1 0 0 0 false.
+Definition ex_set_sp : swspec := mkSw 1 true [(1, mkBr false (table_body ex_pub))] None true.
+Definition ex_set_h : hist := [(0, 1, 1); (1, 1, 1); (1, 2, 2); (1, 3, 3); (0, 4, 1); (1, 5, 4)].
+Example ex_same_branch_rebuilt :
+  let m := reach ex_set_sp ex_set_h 1 10 3 in
+  cycle_due ex_set_sp ex_set_h 10 m /\ mirror_next ex_set_sp ex_set_h m = 4 /\
+  tick_of ex_set_sp ex_set_h 0 4 = Some 1 /\ need_switch ex_set_sp (w_akey (m_w m)) 1 = true /\
+  w_akey (m_w m) = Some 1 /\ o_set (m_out m) = [1; 2; 3] /\
+  o_set (m_out (mirror_cycle ex_set_sp ex_set_h 4 m)) = [3] /\
+  rev (outs_of (m_log (mirror_run ex_set_sp ex_set_h 1 10 30))) =
+    [[21; 1; 1; 1; 1; 1; 0; 1; 1]; [21; 2; 1; 1; 2; 1; 0; 1; 2; 2]; [21; 3; 1; 1; 3; 1; 0; 1; 2; 3; 3];
+     [21; 4; 1; 1; 1; 0; 2; 3; 1; 2]; [21; 5; 1; 1; 2; 1; 0; 3; 4; 4]].
+Proof. vm_compute. repeat split; try discriminate; reflexivity. Qed.
 
 (* an unmatched key without default: the error case of theorem 5 is reachable *)
 Example ex_unmatched :
